@@ -27,6 +27,8 @@ From OV Require Import Proofs.MeshIO.
 From OV Require Import Proofs.MeshInterp2.
 From OV Require Import Proofs.MeshQuad2.
 From OV Require Import Proofs.MeshIO2.
+From OV Require Import Model.MeshOps.
+From OV Require Import Proofs.MeshHist.
 Import ListNotations.
 
 (* a 3 x 2 grid with 2 variables per node, over the rationals, coordinates in nat *)
@@ -604,4 +606,60 @@ Print Assumptions read1_bad_token.
 Example read1_bad_token_nonvacuous :
   nth_error [true; false; true] 1 = Some false /\ (fun b : bool => if b then @Ok AQ (q 1 1) else Panic Unwrap) false = Panic Unwrap.
 Proof. split; reflexivity. Qed.
+
+(* ------------------------------------------------------------------ the tied step function *)
+(* step2 / step1 (Model/MeshOps.v) are the step functions that every check run executes against the
+   implementation, operation by operation; on writes they are the steps of the refinement theorem *)
+
+Theorem tied_writes_refine2 : forall (A : Arith) (K : @mconst A) (m : mesh2 A A) ws g,
+  wf2 m -> Forall (wvalid2 m) ws ->
+  (forall i j, i < m2_nx m -> j < m2_ny m -> get_nodes_vars2 m i j = Ok (g i j)) ->
+  exists m', state2 K m (map op2_of_write ws) = Ok m' /\ wf2 m' /\ shape2_eq m' m /\
+    forall i j, i < m2_nx m -> j < m2_ny m ->
+      step2 K m' (O2Get i j) = Ok (m', VV (fold_left (sstep2 (m2_nvars m)) ws g i j)).
+Proof. intros A K m ws g. exact (MeshHist.tied_writes_refine2 K m ws g). Qed.
+Check tied_writes_refine2 : forall (A : Arith) (K : @mconst A) (m : mesh2 A A) ws g,
+  wf2 m -> Forall (wvalid2 m) ws ->
+  (forall i j, i < m2_nx m -> j < m2_ny m -> get_nodes_vars2 m i j = Ok (g i j)) ->
+  exists m', state2 K m (map op2_of_write ws) = Ok m' /\ wf2 m' /\ shape2_eq m' m /\
+    forall i j, i < m2_nx m -> j < m2_ny m ->
+      step2 K m' (O2Get i j) = Ok (m', VV (fold_left (sstep2 (m2_nvars m)) ws g i j)).
+Print Assumptions tied_writes_refine2.
+Example tied_writes_refine2_nonvacuous :
+  let m : mesh2 AQ AQ := mesh2_new [q 0 1; q 1 2; q 2 1] [q 0 1; q 3 1] 2 in
+  let ws : list (@wop2 AQ) := [@WSet AQ 2 1 [q 1 1; q 2 1]; @WSetElem AQ 0 1 1 (q 3 1); @WAssign AQ (q 4 1); @WSetIdx AQ 1 0 [q 5 1; q 6 1]] in
+  wf2 m /\ Forall (wvalid2 m) ws /\
+  (forall i j, i < m2_nx m -> j < m2_ny m -> get_nodes_vars2 m i j = Ok (repeat (q 0 1) 2)).
+Proof.
+  cbv zeta. split; [apply mesh2_new_wf|]. split.
+  - repeat constructor.
+  - intros i j Hi Hj. exact (mesh2_new_get [q 0 1; q 1 2; q 2 1] [q 0 1; q 3 1] 2 i j Hi Hj).
+Qed.
+
+Theorem tied_writes_refine1 : forall (A : Arith) (K : @mconst A) (m : mesh1 A A) ws g,
+  wf1 m -> Forall (wvalid1 m) ws ->
+  (forall node, node < nnodes1 m -> get_nodes_vars1 m node = Ok (g node)) ->
+  exists m', state1 K m (map op1_of_write ws) = Ok m' /\ wf1 m' /\
+    m1_nodes m' = m1_nodes m /\ m1_nvars m' = m1_nvars m /\
+    forall node, node < nnodes1 m ->
+      step1 K m' (O1Get node) = Ok (m', VV (fold_left sstep1 ws g node)).
+Proof. intros A K m ws g. exact (MeshHist.tied_writes_refine1 K m ws g). Qed.
+Check tied_writes_refine1 : forall (A : Arith) (K : @mconst A) (m : mesh1 A A) ws g,
+  wf1 m -> Forall (wvalid1 m) ws ->
+  (forall node, node < nnodes1 m -> get_nodes_vars1 m node = Ok (g node)) ->
+  exists m', state1 K m (map op1_of_write ws) = Ok m' /\ wf1 m' /\
+    m1_nodes m' = m1_nodes m /\ m1_nvars m' = m1_nvars m /\
+    forall node, node < nnodes1 m ->
+      step1 K m' (O1Get node) = Ok (m', VV (fold_left sstep1 ws g node)).
+Print Assumptions tied_writes_refine1.
+Example tied_writes_refine1_nonvacuous :
+  let m : mesh1 AQ AQ := mesh1_new [q 0 1; q 1 2; q 2 1] 2 in
+  let ws : list (@wop1 AQ) := [@W1Set AQ 2 [q 1 1; q 2 1]; @W1SetElem AQ 0 1 (q 3 1); @W1SetIdx AQ 1 [q 5 1; q 6 1]] in
+  wf1 m /\ Forall (wvalid1 m) ws /\
+  (forall node, node < nnodes1 m -> get_nodes_vars1 m node = Ok (repeat (q 0 1) 2)).
+Proof.
+  cbv zeta. split; [apply mesh1_new_wf|]. split.
+  - repeat constructor.
+  - intros node Hn. exact (mesh1_new_get [q 0 1; q 1 2; q 2 1] 2 node Hn).
+Qed.
 
